@@ -112,6 +112,8 @@ def judge_candidate(cs, c, k, res, refine, panic_msg):
         return ('fail', 'panic:' + slug(panic_msg), '%s panicked: [%s] (%s)' % (what, panic_msg or '?', cond_note(cs, c)))
     if res[0] == 'fuel':
         return ('fail', 'runaway', '%s did not finish within the fuel of the model (%s)' % (what, cond_note(cs, c)))
+    if res[0] == 'trilist-differs':
+        return ('fail', 'trilist-differs', 'get_trilist() does not return the triangles of the slots (%s)' % ' '.join(res[1:]))
     if res[0] not in ('ok', 'err'):
         return ('fail', 'oracle-format', 'unknown outcome %s' % res[0])
     if k == 1: return ('ok', '')
